@@ -147,6 +147,13 @@ impl SymInt {
             Ordering::Greater => SymInt::lit(1),
         }
     }
+    /// used by the automatic cast fix-up of the rewrite (`x as T` on a cost): only legal on a concrete value
+    pub fn cast_conc(self) -> i64 {
+        if self.t != 0 {
+            panic!("SYMX-REFUSE: a symbolic cost is cast to another numeric type (not encodable)");
+        }
+        self.v
+    }
     pub fn to_f32(self) -> f32 {
         self.v as f32
     }
@@ -320,6 +327,13 @@ macro_rules! prim_rhs {
     )*};
 }
 prim_rhs!(i32, i64, isize);
+macro_rules! prim_div {
+    ($($t:ty),*) => {$(
+        impl Div<$t> for SymInt { type Output = SymInt; fn div(self, o: $t) -> SymInt { self / SymInt::from(o) } }
+        impl Rem<$t> for SymInt { type Output = SymInt; fn rem(self, o: $t) -> SymInt { self % SymInt::from(o) } }
+    )*};
+}
+prim_div!(i32, i64, isize);
 
 impl std::iter::Sum for SymInt {
     fn sum<I: Iterator<Item = SymInt>>(iter: I) -> SymInt {
